@@ -33,7 +33,45 @@ func (p *Program) proxyClosures() []*ssa.Function {
 	if cch == nil {
 		return nil
 	}
-	return allFuncsDeep(cch)[1:]
+	// the closures createConnHandler returns, and the module functions they call or spawn (a pump or reply loop
+	// moved out of the closure into a named function)
+	seen := map[*ssa.Function]bool{cch: true}
+	var out []*ssa.Function
+	var add func(f *ssa.Function)
+	add = func(f *ssa.Function) {
+		for _, g := range allFuncsDeep(f) {
+			if seen[g] {
+				continue
+			}
+			seen[g] = true
+			out = append(out, g)
+			eachInstr(g, func(in ssa.Instruction) {
+				c, ok := in.(ssa.CallInstruction)
+				if !ok || c.Common().IsInvoke() {
+					return
+				}
+				callee := c.Common().StaticCallee()
+				if callee == nil || !p.InModule(callee) || callee.Parent() != nil || p.helpers().anchors[callee] || len(callee.Blocks) == 0 {
+					return
+				}
+				// only helpers private to the proxy: every static call site lies in what was collected so far
+				for _, s := range p.helpers().sites[callee] {
+					top := s.Parent()
+					for top.Parent() != nil {
+						top = top.Parent()
+					}
+					if !seen[s.Parent()] && top != cch {
+						return
+					}
+				}
+				add(callee)
+			})
+		}
+	}
+	for _, g := range allFuncsDeep(cch)[1:] {
+		add(g)
+	}
+	return out
 }
 
 func ruleFwdMD(r *Run) {
@@ -480,12 +518,42 @@ func ruleGoShared(r *Run) {
 			}
 			n++
 			key := fmt.Sprintf("%s/go#%d", shortFunc(fn), n)
-			mc, ok := g.Call.Value.(*ssa.MakeClosure)
-			if !ok {
-				r.undecided(key, in.Pos(), "go statement does not spawn a closure literal; shared state cannot be enumerated")
+			// the goroutine's body and the cells it shares with the spawner: the captured variables of a function
+			// literal, or the local variables whose address is passed to a named module function (go f(&err, &wg))
+			type sharedCell struct {
+				cell ssa.Value
+				name string
+			}
+			var body *ssa.Function
+			var shared []sharedCell
+			// toSpawnerCell maps an address used in the body to the spawner's variable it designates
+			var toSpawnerCell func(v ssa.Value) ssa.Value
+			if mc, ok := g.Call.Value.(*ssa.MakeClosure); ok {
+				body = mc.Fn.(*ssa.Function)
+				for i, fv := range body.FreeVars {
+					shared = append(shared, sharedCell{p.cellRoot(mc.Bindings[i]), fv.Name()})
+				}
+				toSpawnerCell = p.cellRoot
+			} else if callee := g.Call.StaticCallee(); callee != nil && p.InModule(callee) && len(callee.Blocks) > 0 && !g.Call.IsInvoke() {
+				body = callee
+				for i, par := range callee.Params {
+					if _, isPtr := par.Type().Underlying().(*types.Pointer); isPtr && i < len(g.Call.Args) {
+						shared = append(shared, sharedCell{p.cellRoot(g.Call.Args[i]), par.Name()})
+					}
+				}
+				toSpawnerCell = func(v ssa.Value) ssa.Value {
+					v = p.cellRoot(v)
+					if par, ok := v.(*ssa.Parameter); ok && par.Parent() == callee {
+						if a := argAt(g, paramIndex(par)); a != nil {
+							return p.cellRoot(a)
+						}
+					}
+					return v
+				}
+			} else {
+				r.undecided(key, in.Pos(), "go statement spawns neither a function literal nor a module function; shared state cannot be enumerated")
 				return
 			}
-			body := mc.Fn.(*ssa.Function)
 			// spawn condition (correlated guards)
 			type fact struct {
 				field *types.Var
@@ -528,7 +596,7 @@ func ruleGoShared(r *Run) {
 					return
 				}
 				doneCalls = append(doneCalls, x)
-				wgAlloc = p.cellRoot(c.Common().Args[0])
+				wgAlloc = toSpawnerCell(c.Common().Args[0])
 			})
 			isDone := func(x ssa.Instruction) bool {
 				for _, d := range doneCalls {
@@ -557,11 +625,12 @@ func ruleGoShared(r *Run) {
 				return ok && calleeName(c) == "(*sync.WaitGroup).Wait" && wgAlloc != nil && p.cellRoot(c.Common().Args[0]) == wgAlloc
 			}
 			// (a) cells written by the goroutine, accessed by the spawner after the go only behind the join
-			for i, fv := range body.FreeVars {
+			for _, sc := range shared {
+				fv := sc
 				written := false
 				for _, bf := range allFuncsDeep(body) {
 					eachInstr(bf, func(x ssa.Instruction) {
-						if st, ok := x.(*ssa.Store); ok && p.cellRoot(st.Addr) == p.cellRoot(mc.Bindings[i]) {
+						if st, ok := x.(*ssa.Store); ok && toSpawnerCell(st.Addr) == sc.cell {
 							written = true
 						}
 					})
@@ -569,8 +638,8 @@ func ruleGoShared(r *Run) {
 				if !written {
 					continue
 				}
-				cell := p.cellRoot(mc.Bindings[i])
-				ckey := key + "/shared:" + fv.Name()
+				cell := sc.cell
+				ckey := key + "/shared:" + fv.name
 				bad := false
 				eachInstr(fn, func(x ssa.Instruction) {
 					var addr ssa.Value
@@ -589,11 +658,11 @@ func ruleGoShared(r *Run) {
 					q := pathQuery{fn: fn, start: in, edgeOK: underSpawn, barrier: isJoin, target: func(z ssa.Instruction) bool { return z == x }}
 					if w, _ := q.find(); w != nil {
 						bad = true
-						r.bad(ckey, x.Pos(), "variable %s is written by the goroutine and accessed by the spawning function after the go statement on a path that has not passed the join (wg.Wait): data race between the pump and the handler (%s)", fv.Name(), p.describePath(w))
+						r.bad(ckey, x.Pos(), "variable %s is written by the goroutine and accessed by the spawning function after the go statement on a path that has not passed the join (wg.Wait): data race between the pump and the handler (%s)", fv.name, p.describePath(w))
 					}
 				})
 				if !bad {
-					r.ok(ckey, in.Pos(), "every access of %s after the go statement is behind the join (evaluated under the spawn condition)", fv.Name())
+					r.ok(ckey, in.Pos(), "every access of %s after the go statement is behind the join (evaluated under the spawn condition)", fv.name)
 				}
 			}
 			// (b) inbound stream: RecvMsg / Context only
